@@ -102,15 +102,18 @@ func c14ScenariosOn(topos []c14Topo, tmpls []c14Tmpl, list bool) []*c14Scenario 
 								node = 1
 							}
 							var steps []c14Step
-							for _, k := range kinds {
+							for j, k := range kinds {
 								st := c14Step{Node: node, Kind: k}
 								switch k {
 								case "set":
 									st.Arg = fmt.Sprintf("v%d", i+1)
 								case "append":
 									st.Arg = fmt.Sprintf("x%d", i+1)
+									if j > 0 {
+										st.Arg = fmt.Sprintf("x%d_%d", i+1, j+1)
+									}
 								case "remove":
-									st.Arg = "a"
+									st.Arg = "b" // not the last member
 								}
 								steps = append(steps, st)
 							}
